@@ -34,6 +34,7 @@ REQUIRED = {
         "fault:finalize",
         "fault:lr_jump",
         "fault:snapshot_restore",
+        "fault:toggle_trainable",
     ],
     "C03": _MODEL_FAULTS + ["reach:stale_sign_present", "check:active"],
     "C11": _MODEL_FAULTS + [
